@@ -654,6 +654,8 @@ def variants():
         Variant("c-unnormalised-subset", "bad", delete_stmt(tl, "trim_weights", "weights_trimmed /= np.sum(weights_trimmed)"), ["C20.c", "C20.d", "C20.e"]),
         Variant("d-ess-raw-squares", "bad", replace_stmt(tl, "effective_sample_size", "weights = weights / np.sum(weights)", "return np.sum(weights) ** 2 / np.sum(weights ** 2)"), ["C20.d"], quick=True),
         Variant("d-ess-no-normalise", "bad", delete_stmt(tl, "effective_sample_size", "weights = weights / np.sum(weights)"), ["C20.d", "C20.e"]),
+        Variant("e-max-shift-with-initial-zero", "bad", replace_expr(tl, "compute_ess", "np.max(logw)", "np.max(logw, initial=0.0)"), ["C20.e"], quick=True),
+        Variant("e-benign-max-shift-with-initial-neg-inf", "benign", replace_expr(tl, "compute_ess", "np.max(logw)", "np.max(logw, initial=-np.inf)")),
         Variant("e-ess-wrong-power", "bad", replace_expr(tl, "effective_sample_size", "weights ** 2.0", "weights ** 3.0"), ["C20.e"]),
         Variant("f-one-pass-cov", "bad", replace_stmt(tl, "volume_variation", "cov = np.dot(xc.T, xc * w[:, np.newaxis])", "cov = np.dot(x.T, x * w[:, np.newaxis]) - np.outer(weighted_mean, weighted_mean)"), ["C20.f"], quick=True),
         Variant("f-vv-unnormalised", "bad", delete_stmt(tl, "volume_variation", "w = w / np.sum(w)"), ["C20.f", "C20.d"]),
